@@ -38,9 +38,14 @@ def run(mod_name, ob_id, tier, seed, args):
                 res['observed'] = 'precondition not met: ' + line
                 return res
     try:
-        r = fn(**kwargs)
-        res['observed'] = repr(r)[:500]
-        res['reproduced'] = not bool(r)
+        for rep in range(max(1, int(getattr(o, 'replay_repeat', 1) or 1))):
+            r = fn(**kwargs)
+            res['observed'] = repr(r)[:500]
+            res['reproduced'] = not bool(r)
+            if res['reproduced']:
+                if rep:
+                    res['observed'] += ' (on call %d of the same obligation in one interpreter)' % (rep + 1)
+                break
     except Exception as e:
         res['exception'] = repr(e)[:500] + ' ' + traceback.format_exc()[-800:]
         res['reproduced'] = True
